@@ -407,7 +407,7 @@ def run(ctx):
             replay_model_action(d, t['a'])
     nwalk = len(walks)
     # 3. code -> spec: random histories
-    nh = ctx.pick(220, 6000)
+    nh = ctx.pick(220, 4000)
     for h in range(nh):
         random_history(d, ctx.rng)
     if d.s:
@@ -436,7 +436,7 @@ def run(ctx):
         ctx.sample({k: (v if len(str(v)) < 400 else str(v)[:400] + '..') for k, v in e.items() if k in ('stmt', 'items', 'vars', 'ok', 'code')})
     judge(ctx, d, verdicts)
     need = ('write', 'print', 'input', 'lineinput', 'items_read_s', 'items_read_n', 'closes_with_host_bytes', 'append_to_nonempty', 'eof_true')
-    if not all(stats[k] for k in need):
+    if not all(stats[k] for k in need) and not ctx.violations:
         raise core.MachineryError('vacuous run: %s' % dict(stats))
 
 
